@@ -49,8 +49,17 @@ def body(n, v):
         return '<html><p tal:content="][">v4 of %s does not compile</p></html>' % n
     macros = {1: ["m1", "m2"], 2: ["m2", "m3"], 3: []}[v]
     src = "".join('<b metal:define-macro="%s">%s-v%d-%s</b>' % (m, m, v, n) for m in macros)
-    doc = "<html><p>v%d of %s</p>%s</html>" % (v, n, src)
+    doc = "<html><p>v%d of %s</p>%s<input checked=\"${True}\" /></html>" % (v, n, src)
     return ('<?xml version="1.0"?>\n' + doc) if v == 3 else doc
+
+
+def rendered(n, v):
+    """what version v renders: macro statements gone; checked="${True}" is an implicit boolean attribute of an HTML
+    document, an ordinary attribute of an XML document"""
+    out = body(n, v)
+    for m in ("m1", "m2", "m3"):
+        out = out.replace(' metal:define-macro="%s"' % m, "")
+    return out.replace('checked="${True}"', 'checked="True"' if v == 3 else 'checked="checked"')
 
 
 def _replay(args):
@@ -121,7 +130,7 @@ def _replay(args):
                         t = tpls[op["t"]]
                         got = t()
                         name = os.path.basename(t.filename)[:-3]
-                        want = body(name, op["ver"]).replace(' metal:define-macro="m1"', "").replace(' metal:define-macro="m2"', "").replace(' metal:define-macro="m3"', "")
+                        want = rendered(name, op["ver"])
                         if got != want:
                             why = "render returns %r, the specification serves version %d: %r" % (got, op["ver"], want)
                         elif t.content_type != op["ctype"]:
@@ -272,6 +281,30 @@ def loader_rules(ctx):
                 check("search path %s: a name the package holds" % path, "Hello world" in Lp.load("hello_world.pt")(), True)
         finally:
             os.chdir(cwd)
+        # a template named through a symbolic link is the file the link points to NOW: re-pointing the link is a
+        # modification of the named file; load: looks next to the NAMED path
+        try:
+            os.mkdir(os.path.join(root, "rel1"))
+            os.mkdir(os.path.join(root, "rel2"))
+            for k in (1, 2):
+                open(os.path.join(root, "rel%d" % k, "page.pt"), "w").write('<p>release %d <i tal:define="t load: part.pt" metal:use-macro="t" /></p>' % k)
+                open(os.path.join(root, "rel%d" % k, "part.pt"), "w").write("<i>part %d</i>" % k)
+                os.utime(os.path.join(root, "rel%d" % k, "page.pt"), (5000 + k * 100, 5000 + k * 100))
+            link = os.path.join(root, "current")
+            os.symlink(os.path.join(root, "rel1"), link)
+            t = PageTemplateFile(os.path.join(link, "page.pt"), auto_reload=True)
+            check("template named through a directory link", t(), "<p>release 1 <i>part 1</i></p>")
+            os.remove(link)
+            os.symlink(os.path.join(root, "rel2"), link)
+            check("the link re-pointed: the named file has changed", t(), "<p>release 2 <i>part 2</i></p>")
+            check("filename stays the name that was given", t.filename, os.path.join(link, "page.pt"))
+            # a link to a single file in another directory: load: looks next to the link
+            os.mkdir(os.path.join(root, "site"))
+            open(os.path.join(root, "site", "part.pt"), "w").write("<i>part of site</i>")
+            os.symlink(os.path.join(root, "rel1", "page.pt"), os.path.join(root, "site", "page.pt"))
+            check("load: next to the named path (a link)", PageTemplateFile(os.path.join(root, "site", "page.pt"))(), "<p>release 1 <i>part of site</i></p>")
+        except OSError:
+            pass    # no symbolic links here
         # one name requested in both formats: each format has its own instance of its own class, in either order
         from chameleon.zpt.template import PageTemplateFile as PTF, PageTextTemplateFile as PTTF
         open(os.path.join(d1, "both.pt"), "w").write("<p>${v}</p>")
